@@ -57,7 +57,10 @@ func TestPropConcurrent(t *testing.T) {
 		nt := 0
 		for i := range cs {
 			cs[i], _ = genCase(rt)
-			if nonTrivial(cs[i].G.V) {
+			if l := cs[i].Large; l != nil && l.N > 130 {
+				l.N = 130 // a group runs every case 8 times on up to 8 goroutines: keep each case cheap
+			}
+			if cs[i].Large == nil && nonTrivial(cs[i].geometry()) {
 				nt++
 			}
 		}
@@ -187,6 +190,121 @@ func TestEnumLongMembers(t *testing.T) {
 		}
 	}
 	stats.Subspace("vertex lists of n in {31,32,33,63,64,65,100,127,128,129,255,256,257} x 7 kinds (line, ring, polygon outer ring, polygon hole, multi-point, first / last line of a multi-line) x {alone, first, last, nested-first member of a collection of short point/multi-point/polygon/bound/ring}", size, true)
+}
+
+// TestEnumAliased: values whose members share memory with each other, systematically: every kind
+// with nested slices x every window pattern for the point slices x every window pattern for the
+// outer array (polygons of a multi-polygon, nested collections of a collection) x member that lives
+// in its parent's own backing array x nesting 0..2. Expectations come from the value (independent
+// deep copy); the argument handed to orb is the aliased build.
+func TestEnumAliased(t *testing.T) {
+	assumptions()
+	currentTest = "TestEnumAliased"
+	bufs := [][]gen.P{
+		{{0, 0}, {3, 0}, {3, 3}, {0, 3}, {0, 0}, {1, 1}, {2, 1}, {1, 2}},
+		{{1, 2}, {1, 2}, {4, -1}, {-2, 0.5}, {1, 2}, {0, 0}},
+	}
+	idxs := [][]int{{0, 0}, {0, 1, 2}, {2, 1, 0, 1}, {1}}
+	var idx, size int64
+	for bi, buf := range bufs {
+		for _, kind := range aliasKinds {
+			for pi, pool := range windowPatterns {
+				for ii, ix := range idxs {
+					for wi, win := range windowPatterns {
+						if kind != "MultiPolygon" && kind != "Collection" && wi > 0 {
+							continue
+						}
+						for self := 0; self <= 2; self++ {
+							if kind != "Collection" && self > 0 {
+								continue
+							}
+							for depth := 0; depth <= 2; depth++ {
+								idx++
+								size++
+								if !stats.Mine(idx + int64(pi) + int64(ii)) {
+									continue
+								}
+								r := AliasRecipe{Buf: buf, Pool: pool, Kind: kind, Idx: ix, Win: win, Self: self, Whole: (pi+wi+depth)%2 == 0, Depth: depth}
+								k := (bi + pi + ii + wi + depth) % 4
+								c := Case{
+									Alias: &r, World: "grid", Q: gen.P{1.25, 0.75},
+									Box:  gen.FromBound([]orb.Bound{{Min: orb.Point{0.5, 0.5}, Max: orb.Point{2.5, 2.5}}, {Min: orb.Point{-3, -3}, Max: orb.Point{4, 4}}, {Min: orb.Point{1, 1}, Max: orb.Point{3, 3}}, {Min: orb.Point{10, 10}, Max: orb.Point{11, 11}}}[k]),
+									Zoom: []int{5, 0, 9, 3}[k], Thr: gen.F([]float64{0.5, 0, 10, 1}[k]), Keep: []int{3, 0, 2, 5}[k],
+									Factor: []int{0, 1, 10, 1000000}[k], SRID: []int{4326, 0, 1, 3857}[k], Proj: []string{"toMercator", "toWGS84", "affine", "toMercator"}[k],
+								}
+								g := c.geometry()
+								c.G, c.H = gG(g), gG(otherKind(g))
+								stats.Eval("TestEnumAliased", 1)
+								stats.Class("aliased:" + kind)
+								stats.NonTrivial("alias:" + gen.JSON(r))
+								stats.TryT(t, "TestEnumAliased", c, func() error { return checkCase(c) })
+							}
+						}
+					}
+				}
+			}
+		}
+	}
+	stats.Subspace("members sharing memory: 2 point buffers x 4 kinds x 6 point-window patterns x 4 member selections x 6 outer-window patterns (multi-polygon, collection) x self-prefix member 0..2 (collection) x nesting 0..2", size, true)
+}
+
+// largeTops: where each ladder stops in the quick and in the thorough tier (reasons in rule.txt).
+var largeTops = map[string][2]int{
+	"line-zigzag": {4096, 65536}, "ring-convex": {4096, 65536}, "multipoint": {4096, 65536}, "coll-big": {4096, 65536},
+	"mls-members": {4096, 16384}, "mpoly-members": {4096, 16384}, "poly-rings": {4096, 16384}, "coll-members": {4096, 16384},
+	"coll-depth": {512, 1024},
+}
+
+// TestEnumLarge runs the size ladder of every size dimension of a geometry value (vertices per list,
+// members per multi-geometry / collection, rings per polygon, nesting depth, one enormous member
+// first / middle / last among small ones) through all generic entry points with the usual oracles.
+func TestEnumLarge(t *testing.T) {
+	assumptions()
+	currentTest = "TestEnumLarge"
+	var idx, size int64
+	for si, shape := range largeShapes {
+		top := largeTops[shape][0] + 3
+		if stats.Thorough() {
+			top = largeTops[shape][1] + 3
+		}
+		rungs := ladder(top)
+		switch {
+		case shape == "coll-depth":
+		case stats.Thorough():
+			rungs = ladder(top, 65536) // the 64 Ki neighbourhood for every dimension
+		case shape == "line-zigzag" || shape == "ring-convex":
+			rungs = append(rungs, 65535, 65536, 65538) // quick: three rungs of it, for the vertices of a line and of a ring only (cost)
+		}
+		for ni, n := range rungs {
+			poss := []int{0}
+			if shape == "coll-big" {
+				poss = []int{0, 1, 2}
+			}
+			for _, pos := range poss {
+				idx++
+				size++
+				if !stats.Mine(idx + int64(si)) {
+					continue
+				}
+				r := LargeRecipe{Shape: shape, N: n, Pos: pos}
+				thr := 0.05
+				if n > 16385 {
+					thr = 10 // above this size Douglas-Peucker's quadratic comb case is not affordable: everything goes in one pass
+				}
+				c := Case{
+					Large: &r, World: "lonlat", Q: gen.P{1.25, 0.75}, Box: gen.FromBound(orb.Bound{Min: orb.Point{-3, 0.25}, Max: orb.Point{3, 4}}),
+					Zoom: 3, Thr: gen.F(thr), Keep: []int{0, 40}[ni%2], Factor: []int{0, 1000}[ni%2], SRID: 4326, Proj: []string{"toMercator", "affine"}[ni%2],
+					Layout: []string{"shared", "spare", "plain"}[ni%3],
+				}
+				c.H = gG(orb.Point{1, 2})
+				stats.Eval("TestEnumLarge", 1)
+				stats.Class("large:" + shape)
+				stats.NonTrivial(gen.JSON(r))
+				stats.TryT(t, "TestEnumLarge", c, func() error { return checkCase(c) })
+			}
+		}
+	}
+	stats.Subspace("size ladder {L-2..L+3, 1.5L+1 : L = 2^k} u {L-2..L+3 : L = 10^k} u {4095..4097,65535,65536} for 9 structured shapes (vertices, members, rings, depth, one big member first/middle/last); tops per shape in rule.txt", size, true)
 }
 
 // perturbLast is a copy of g whose last slice-held coordinate differs.
